@@ -36,7 +36,7 @@ ASSUMPTIONS = [
 def GATES(tier):
     return [("constructions_judged", 1500), ("hierarchies", 60), ("handwritten_parent_calls_compared", 200), ("post_init_checked", 300), ("unknown_kw_rejected", 100), ("overflow_collected", 50),
             ("nonconforming_rejected", 100), ("key_positional", 30), ("key_missing_rejected", 10), ("two_parents", 10), ("plain_grandchild", 10), ("spec_grandchild", 10), ("init_false_parent", 5),
-            ("redeclared_attr", 20), ("redefaulted_attr", 20)]
+            ("redeclared_attr", 20), ("redefaulted_attr", 20), ("parent_post_init", 10), ("key_redefaulted", 3)]
 
 
 class H:
@@ -63,7 +63,10 @@ class H:
         def parent(name, prefix):
             handwritten = rng.random() < 0.45
             attrs = new_attrs(prefix, rng.randint(1, 3), allow_init_false=not handwritten)
-            c = {"bases": [], "kind": "spec", "attrs": attrs, "ctor": "handwritten" if handwritten else "generated", "sigdefs": {}, "key": None, "overflow": None, "post_init": False}
+            c = {"bases": [], "kind": "spec", "attrs": attrs, "ctor": "handwritten" if handwritten else "generated", "sigdefs": {}, "key": None, "overflow": None,
+                 "post_init": (not handwritten) and rng.random() < 0.3}
+            if c["post_init"]:
+                self.features.add("parent_post_init")
             if handwritten:
                 c["sigdefs"] = {n: rng.randint(1, 9) * 100 for n in attrs}
                 for a in attrs.values():  # the documented shape declares the attributes without class-level defaults
@@ -96,6 +99,10 @@ class H:
             n = inherited.pop()
             c_attrs[n] = {"default": rng.randint(1, 9), "init": True, "annotated": False, "style": "lit"}  # re-defaulted: ownership stays
             self.features.add("redefaulted_attr")
+        if self.classes["A"].get("key") and rng.random() < 0.5:
+            # the child merely re-defaults the inherited key (no annotation): the key is then optional for the child
+            c_attrs["k"] = {"default": "ck", "init": True, "annotated": False, "style": "lit"}
+            self.features.add("key_redefaulted")
         c_attrs.update(new_attrs("c", rng.randint(0, 2), allow_init_false=False))
         self.classes["C"] = {"bases": ["A", "B"] if two else ["A"], "kind": "spec", "attrs": c_attrs, "ctor": "generated", "sigdefs": {}, "key": None, "overflow": "extras" if rng.random() < 0.3 else None,
                              "post_init": rng.random() < 0.6}
@@ -156,6 +163,13 @@ class H:
                 return v, n
         return None, None
 
+    def key_default(self, name, key):
+        """Default of the key as seen from class `name`: nearest class-body re-default, else the owner's declaration."""
+        d = self.nearest_default(name, key)
+        if d is not None:
+            return d
+        return self.classes[self.managed(name)[key]].get("key_default")
+
     def nearest_default(self, name, attr):
         """Nearest class-body default along the MRO of `name` (None = no default)."""
         for n in self.mro(name):
@@ -192,7 +206,7 @@ class H:
                     else:
                         body.append(f"    {n}: int = {a['default']}")
                 else:
-                    body.append(f"    {n} = {a['default']}")
+                    body.append(f"    {n} = {a['default']!r}")
             if c["ctor"] == "handwritten":
                 sig = ", ".join(f"{n}={d}" for n, d in c["sigdefs"].items())
                 body.append(f"    def __init__(self, {sig}):")
@@ -226,7 +240,7 @@ class H:
                 return ("unspecified", None), None, None  # init=False attribute by keyword on a class with **overflow: not documented
             return ("raise", (TypeError,)), None, None  # init=False attribute passed by keyword
         if key:
-            kd = self.classes[managed[key]].get("key_default")
+            kd = self.key_default(name, key)
             if key not in kw and kd is None:
                 return ("raise", (TypeError,)), None, None
         for k, v in kw.items():
@@ -240,7 +254,7 @@ class H:
             if n == overflow:
                 continue
             if n == key:
-                state[n] = kw.get(key, self.classes[owner].get("key_default"))
+                state[n] = kw.get(key, self.key_default(name, key))
                 continue
             info = self.attr_info(name, n)
             if not info["init"]:
@@ -375,8 +389,8 @@ def run(ctx, params):
                     elif seen_calls[owner][0] != recv:
                         ctx.violation("parent_constructor_arguments", f"{label}: hand-written {owner}.__init__ received {seen_calls[owner][0]}, the model says {recv}", features=feats, case=case, source=src)
                 # __post_init__ exactly once, after all attributes are set
-                pc, _ = h.effective(cname, "post_init")
-                if pc and h.classes[h.spec_owner_class(cname)].get("post_init"):
+                pc, _ = h.effective(h.spec_owner_class(cname), "post_init")
+                if pc:
                     ctx.count("post_init_checked")
                     if inst.__dict__.get("pi_count") != 1:
                         ctx.violation("post_init_once", f"{label}: __post_init__ ran {inst.__dict__.get('pi_count', 0)} times", features=feats, case=case, source=src)
